@@ -156,8 +156,19 @@ class Node:
                 bs.genesis_block_data = orig
             bs.DefaultBlockStore.instance = self.store
         self.disk = DiskIf(di.DiskInterface())
-        with contextlib.redirect_stdout(io.StringIO()):
-            self.local = lp.LocalPeer(disk_interface=self.disk)
+        # the node comes into being the way every script creates it: NetworkingThread.__init__ (LocalPeer, the chain read from disk handed to
+        # the chain manager, the peer list loaded); the thread itself is never started -- the harness plays the event loop
+        self.thread = None
+        try:
+            import skepticoin.networking.threading as nt
+            with contextlib.redirect_stdout(io.StringIO()):
+                self.thread = nt.NetworkingThread(coinstate, port=None, disk_interface=self.disk)
+            self.local = self.thread.local_peer
+        except Exception as e:
+            self.startup_error = repr(e)
+            with contextlib.redirect_stdout(io.StringIO()):
+                self.local = lp.LocalPeer(disk_interface=self.disk)
+            self.local.chain_manager.set_coinstate(coinstate)
         self.local.selector.close()
         self.local.selector = FakeSelector()
         self.local.port = port
@@ -166,7 +177,6 @@ class Node:
         self.local.logger.setLevel(logging.CRITICAL)
         self.local.logger.propagate = False
         self.local.chain_manager.started_at = self.clock() - 10_000      # not "right after restart"
-        self.local.chain_manager.set_coinstate(coinstate)
         self.local.running = True
         self.peers = {}
         self.escaped = []         # exceptions that escaped the event handler / manager step
